@@ -326,6 +326,8 @@ def cob(r):
         return "(OOk %s)" % cval(r["val"])
     if r["verdict"] == "panic":
         return "OPanic"
+    if r["verdict"] == "shared":
+        return "OShared"
     return "OErr"
 
 
@@ -830,6 +832,76 @@ class Gen:
             c["props"] = [[k, rng.choice(PROP_VALUES)] for k in ks]
         return c
 
+    # ---- aliasing: pointer-bearing containers with >= 2 DISTINCT values per container
+    ALIAS_SHAPES = [
+        lambda k: Mp(Ptr(k)), lambda k: Sl(Ptr(k)), lambda k: Mp(Ptr(Ptr(k))), lambda k: Mp(Mp(Ptr(k))),
+        lambda k: Sl(St(F("M", Mp(Ptr(k))))), lambda k: Mp(Sl(Ptr(k))), lambda k: Sl(Ptr(Ptr(k))),
+        lambda k: St(F("P", Ptr(k)), F("Q", Ptr(Ptr(k))), F("R", Ptr(k))), lambda k: Mp(St(F("In", Mp(Ptr(k))))),
+        lambda k: Sl(Sl(Ptr(k))), lambda k: Mp(k), lambda k: Ptr(St(F("A", Ptr(k)), F("B", Ptr(k)))),
+    ]
+
+    def distinct_values(self, t, n):
+        """n pairwise different valid documents for the (scalar or struct) type t"""
+        rng = self.rng
+        k = t["k"]
+        if k == "struct":
+            vals = self.distinct_values(t["f"][0]["t"], n)
+            return [dm(*([(t["f"][0]["key"], v)] + [(f["key"], self.distinct_values(f["t"], 1)[0]) for f in t["f"][1:]])) for v in vals]
+        if k == "bool":
+            return [db(i % 2 == 0) for i in range(n)]
+        if k == "string":
+            return [ds(x) for x in rng.sample(["a", "b", "x y", "", "Zz", "7"], n)]
+        if k in FLOAT_KINDS:
+            return [dfl(x) for x in rng.sample(["1.5", "0.25", "-3.75", "2.5e3", "0.5", "99.99"], n)]
+        hi = min(2 ** BITS[k] - 1 if k in UINT_KINDS else 2 ** (BITS[k] - 1) - 1, 2 ** 63 - 1)
+        return [di(x) for x in rng.sample([0, 1, 2, 7, 42, 100, hi, hi - 1], n)]
+
+    def alias_value(self, t):
+        rng = self.rng
+        k = t["k"]
+        if k == "ptr":
+            return self.alias_value(t["e"])
+        if k in ("slice", "map"):
+            e = deref(t["e"])
+            n = rng.choice([2, 3])
+            if e["k"] in ("slice", "map") or (e["k"] == "struct" and any(deref(f["t"])["k"] in ("slice", "map") for f in e["f"])):
+                vals = [self.alias_value(t["e"]) for _ in range(n)]
+            else:
+                vals = self.distinct_values(e, n)
+            if k == "slice":
+                return dl(*vals)
+            return dm(*zip(rng.sample(["a", "b", "Kk", "x1", "UPPER"], n), vals))
+        if k == "struct":
+            fs = t["f"]
+            leaf = [f for f in fs if deref(f["t"])["k"] not in ("slice", "map", "struct")]
+            vals = iter(self.distinct_values(deref(leaf[0]["t"]), len(leaf))) if leaf and len(set(deref(f["t"])["k"] for f in leaf)) == 1 else None
+            pairs = []
+            for f in fs:
+                d = deref(f["t"])
+                if d["k"] in ("slice", "map", "struct"):
+                    pairs.append((f["key"], self.alias_value(f["t"])))
+                else:
+                    pairs.append((f["key"], next(vals) if vals else self.distinct_values(d, 1)[0]))
+            return dm(*pairs)
+        return self.distinct_values(t, 1)[0]
+
+    def alias_case(self, kind):
+        """every position of a decoded value has its own cell: containers of pointers (to every scalar kind and
+        to structs) with two or three DIFFERENT values; the decoded values are compared through the pointers
+        (model, other formats, encoding/json) and the executor checks that no two positions share storage"""
+        rng = self.rng
+        k = rng.choice([P(x) for x in CK] + [St(F("Num", P(rng.choice(INT_KINDS + FLOAT_KINDS))), F("Name", P("string")))])
+        t = rng.choice(self.ALIAS_SHAPES)(k)
+        if t["k"] in ("slice", "map") and t["e"]["k"] == "uint8":
+            t = Mp(Ptr(k))
+        key = "limits" if kind == "std" else "Limits"
+        fields = [F(key, t)]
+        doc = dm((key, self.alias_value(t)))
+        c = {"kind": kind, "type": fields, "doc": doc, "doc2": None, "env": None}
+        if kind == "load":
+            c["doc2"] = self.recase_doc(fields, doc)
+        return c
+
     def mfmt_case(self):
         """mapping.Unmarshal{Json,Yaml,Toml}{Bytes,Reader}: no conf layer, keys are matched exactly"""
         rng = self.rng
@@ -929,6 +1001,8 @@ def cobx(r):
         return "XErr"
     if r["verdict"] == "ok":
         return "(XOk %s)" % cstr(json.dumps(r["val"], sort_keys=True))
+    if r["verdict"] == "shared":
+        return "XShared"
     return "XPanic" if r["verdict"] == "panic" else "XErr"
 
 
@@ -1385,6 +1459,11 @@ class C17(Property):
                  "env": None},
             ]
         cs += raw_corpus() + bad_corpus()
+        # aliasing witnesses (seeded change C17-4): two entries, two cells
+        for kind, key in (("std", "limits"), ("load", "Limits"), ("mfmt", "Limits")):
+            cs.append({"kind": kind, "type": [F(key, Mp(Ptr(P("int")))), F("rates", Mp(Mp(Ptr(P("float64")))), None if kind == "std" else O(opt=True))],
+                       "doc": dm((key, dm(("a", di(1)), ("b", di(2)))), ("rates", dm(("x", dm(("p", dfl("1.5")), ("q", dfl("0.25"))))))),
+                       "doc2": None, "env": None})
         # regression witnesses of the type-shape class (seeded change C17-3 and the two repairs found with it)
         node = lambda h, c: dm((h, ds("h1")), (c, di(3)))
         cs.append({"kind": "shape", "type": [F("Nodes", Sl(Ptr(Nm("Node"))))], "env": None, "noload": False,
@@ -1443,7 +1522,7 @@ class C17(Property):
         tries = 0
         landed = fix_landed()
         n_shape = max(40, n // 5)
-        n_main = n - n_shape
+        n_main = n - n_shape - max(24, n // 20)
         while len(cases) < n_main and tries < 20 * n:
             tries += 1
             r = rng.random()
@@ -1465,6 +1544,13 @@ class C17(Property):
                 self.skipped[FIX_ID] = self.skipped.get(FIX_ID, 0) + 1
                 continue
             cases.append(c)
+        n_alias = 0
+        while n_alias < max(24, n // 20):
+            c = g.alias_case(["load", "std", "mfmt"][n_alias % 3])
+            if detect_shapes(c):
+                continue
+            cases.append(c)
+            n_alias += 1
         cases += shape_cases(rng, n_shape, fix_landed(FIX_DUR), fix_landed(FIX_ANON), fix_landed(FIX_MBOOL))
         return cases
 
